@@ -771,6 +771,7 @@ fn apply(root: &Path, a: &Act) {
             // make the tree quiet: no file has any finding
             let _ = std::fs::remove_file(proj.join("a.sol"));
             let _ = std::fs::remove_file(proj.join("c.sol"));
+            let _ = std::fs::remove_file(proj.join("q.sol"));
             let _ = std::fs::remove_file(proj.join("sub").join("b.sol"));
             std::fs::write(proj.join("n.sol"), crate::fsx::SRC_NONE).unwrap();
         }
@@ -798,13 +799,19 @@ fn apply(root: &Path, a: &Act) {
     }
 }
 
-fn init_tree(root: &Path) {
+fn init_tree(root: &Path, only_contracts: bool) {
     std::fs::create_dir_all(root.join("out")).unwrap();
     std::fs::create_dir_all(root.join("proj").join("sub")).unwrap();
     std::fs::write(root.join("proj").join("a.sol"), crate::fsx::SRC_P).unwrap();
     std::fs::write(root.join("proj").join("sub").join("b.sol"), crate::fsx::SRC_PQ).unwrap();
-    std::fs::write(root.join("proj").join("notes.txt"), b"not solidity").unwrap();
-    std::fs::write(root.join("proj").join("sub").join("x.t.sol"), crate::fsx::GARBAGE).unwrap();
+    // two initial trees: one in which every directory holds nothing but contracts (the report of an earlier run is
+    // then the first file of another kind that ever appears there), one with other files next to them
+    if only_contracts {
+        std::fs::write(root.join("proj").join("q.sol"), crate::fsx::SRC_PQ).unwrap();
+    } else {
+        std::fs::write(root.join("proj").join("notes.txt"), b"not solidity").unwrap();
+        std::fs::write(root.join("proj").join("sub").join("x.t.sol"), crate::fsx::GARBAGE).unwrap();
+    }
     // a configuration file outside the working directories, naming the analysed directory relatively
     std::fs::create_dir_all(root.join("conf")).unwrap();
     let l = |xs: &[&str]| xs.iter().map(|x| format!("\"{}\"", x)).collect::<Vec<_>>().join(", ");
@@ -870,10 +877,12 @@ pub fn c18(tier: Tier) -> i32 {
     }
     let _ = (&mut frontier, &mut seen);
     gen(&acts, depth, &mut Vec::new(), &mut histories);
-    let res = util::par_map(histories.len(), |hi| {
-        let h = &histories[hi];
+    let n_hist = histories.len();
+    let res = util::par_map(2 * n_hist, |hi| {
+        let h = &histories[hi % n_hist];
+        let only_contracts = hi >= n_hist;
         let root = scratch("c18");
-        init_tree(&root);
+        init_tree(&root, only_contracts);
         let mut vs = Vec::new();
         let mut runs = 0u64;
         let mut snap_hash = 0u64;
@@ -891,7 +900,7 @@ pub fn c18(tier: Tier) -> i32 {
                     runs += 1;
                     let after = snapshot(&root);
                     let rep_rel = if cwd_rel.is_empty() { "solstat_report.md".to_string() } else { format!("{}/solstat_report.md", cwd_rel) };
-                    let hist = format!("{:?} (violation at step {})", h, step);
+                    let hist = format!("{:?} on the initial tree {} (violation at step {})", h, if only_contracts { "of contracts only" } else { "with other files" }, step);
                     if out.code != Some(0) {
                         vs.push(Violation { site: "run:failed".into(), input: hist.clone(), expected: "exit 0".into(), observed: format!("exit {:?} stderr {}", out.code, out.stderr), size: h.len(), unit_test: String::new(), extra: json!({}) });
                         continue;
@@ -974,14 +983,14 @@ pub fn c18(tier: Tier) -> i32 {
         run.merge_violations(vs);
     }
     // determinism self-test of the harness side: replay the first histories
-    run.set("states", histories.len() as u64);
+    run.set("states", 2 * histories.len() as u64);
     run.set("transitions", runs);
     run.set("traces_validated_against_impl", runs);
     run.set("evaluations", runs);
     run.set("distinct_nontrivial", finals.len() as u64);
     run.set(
         "rule",
-        "states = histories of <= 3 (quick) / 4 (thorough) actions ending in a run, over 21 actions: run the unhooked binary from a directory outside the tree / from the parent of the analysed directory / from the analysed directory itself / from a sub-directory of it / from the parent through a --toml file that lives in another directory and names the tree relatively; edit the tree (add, change, remove a .sol file, make the tree finding-free); plant a left-over solstat_report.md (unrelated bytes, 1 MB, a longer stale report) in any of the three working directories. After every run: byte snapshot of the whole scratch root before/after (only <cwd>/solstat_report.md may differ or appear), the report exists, and it is byte-identical to the report of a run on a fresh copy of the current tree from a clean working directory; non-trivial = distinct final snapshots",
+        "states = (initial tree: contracts only / contracts next to other files) x histories of <= 3 (quick) / 4 (thorough) actions ending in a run, over 21 actions: run the unhooked binary from a directory outside the tree / from the parent of the analysed directory / from the analysed directory itself / from a sub-directory of it / from the parent through a --toml file that lives in another directory and names the tree relatively; edit the tree (add, change, remove a .sol file, make the tree finding-free); plant a left-over solstat_report.md (unrelated bytes, 1 MB, a longer stale report) in any of the three working directories. After every run: byte snapshot of the whole scratch root before/after (only <cwd>/solstat_report.md may differ or appear), the report exists, and it is byte-identical to the report of a run on a fresh copy of the current tree from a clean working directory; non-trivial = distinct final snapshots",
     );
     run.set("bound_completed", format!("history length <= {}", depth));
     run.set("samples", json!(histories.iter().step_by(histories.len() / 3 + 1).take(3).map(|h| format!("{:?}", h)).collect::<Vec<_>>()));
